@@ -124,6 +124,23 @@ CLAIMED = {
              "draws; the same-seed coupling of the two generators is evaluated exactly on the model's maps.",
         note="The spectrum value is an atom in the model (trusted: NumPy exp/sqrt in the harness). The two convergence clauses are "
              "asymptotic numerics and not decided."),
+    "C10": dict(
+        engine="tlc+replay", design_ref="DESIGN.md §3 C10",
+        technique="TLA+ spec Propagation.tla: each propagator as a pipeline of typed stages (exact rational chirp coefficients, scalar monomials in lam/z0/d1/N, centred DFTs from FourierOps); the power ledger (unit-modulus stages, scaled-unitary DFT tables by the exact root-of-unity test, scalar x spacing monomials = 1) decided by TLC for every size, magnification and signed distance; each pipeline interpreted numerically and compared with the real propagator on a basis",
+        text="Operator-level decision: conservation holds for ALL inputs iff the pipeline is a scaled unitary, which TLC decides "
+             "exactly for 150 pipelines (4 propagators x sizes 2,4,8 x magnifications 1/2,1,3/2,2 x distances -2..3 z0). The real "
+             "functions must equal the interpreted pipeline (2e-9) on every unit impulse, interference inputs and a random field for "
+             "three physical parameter sets (one sampling finer than the wavelength), conserve sum|U|^2 d^2 and be linear; the same "
+             "two laws are evaluated on 60 (600) random off-lattice parameter sets.",
+        note="Even square grids. The numeric binding trusts NumPy FFT/exp to 1e-9."),
+    "C11": dict(
+        engine="tlc+replay", design_ref="DESIGN.md §3 C11",
+        technique="Propagation.tla: all programs of unit-magnification steps (<= 4, thorough 6, distances -2..3 z0) collapse to the transfer function of the total distance on exact rationals, with the DFT cancellation checked on the exponent tables; m then 1/m cancels chirp by chirp; signed-spacing bookkeeping decides orientation; every program replayed on the real angularSpectrum, every propagator compared with its Fresnel-integral pipeline",
+        text="TLC enumerates 2340 (thorough ~56000) programs grouped by total distance and decides Additive/Inverse/ZeroIsIdentity, "
+             "MagnifyBack and the orientation of each method; each program is executed on the real code with two fields and three "
+             "physical parameter sets (consecutive programs alternate spacing and wavelength) and compared with the single direct step.",
+        note="NOT decided (no exact discrete counterpart): equality of different propagators as discretisations where their grids "
+             "coincide, Gaussian-beam width/curvature/Gouy phase, Airy pattern. Known finding: twoStepFresnel is mirrored for d2 != d1."),
 }
 
 NOT_APPLICABLE = {
